@@ -174,7 +174,9 @@ def m_install_make(sym: str) -> bool:
     want_dst = '/stage' + dest + rootdir + '/' + _expected_rel(KIND, name)
     src = f.path.suffix if f.path.root == Root.builddir else '/srcdir/' + f.path.suffix
     a = inst[0]
-    ok = a[-2:] == [src, want_dst] and a[0] == 'doppel' and '-p' in a
+    # a file directly in the build directory is named './<file>' on the command line
+    ok = (len(a) >= 2 and a[-1] == want_dst and a[-2] in (src, './' + src) and a[0] == 'doppel'
+          and '-p' in a)
     ok = ok and unin[0][:2] == ['rm', '-f'] and unin[0][2:] == [want_dst]
     return R(ok)
 
@@ -267,7 +269,9 @@ def n_install_ninja(sym: str) -> bool:
     want_dst = '/stage' + dest + rootdir + '/' + _expected_rel(KIND, name)
     src = f.path.suffix if f.path.root == Root.builddir else '/srcdir/' + f.path.suffix
     a = inst[0]
-    ok = a[-2:] == [src, want_dst] and a[0] == 'doppel' and '-p' in a
+    # a file directly in the build directory is named './<file>' on the command line
+    ok = (len(a) >= 2 and a[-1] == want_dst and a[-2] in (src, './' + src) and a[0] == 'doppel'
+          and '-p' in a)
     ok = ok and unin[0][:2] == ['rm', '-f'] and unin[0][2:] == [want_dst]
     return R(ok)
 
